@@ -14,7 +14,11 @@ F(name, ok) == IF ok THEN {} ELSE {name}
 SeqMax(sq) == FoldSeq(LAMBDA x, y : IF x > y THEN x ELSE y, 0, sq)
 AbsSt(j) == [roots |-> ToSet(j.roots), ridx |-> j.ridx, cfg |-> j.cfg, seen |-> ToSet(j.seen), top |-> SeqMax(j.seen),
              active |-> j.active, signer |-> j.signer]
-AbsCmd(c) == IF "roots" \in DOMAIN c THEN [c EXCEPT !.roots = ToSet(@)] ELSE c
+\* A request lists roots; the root SET it asks for is keyed by id.  When the leader rolls a rotation back the list
+\* names the returning root twice - its stale stored copy (inactive) and the new active entry: the request, which
+\* the store validates as "exactly one active entry", asks for that root to be ACTIVE.
+RootSetOf(sq) == LET all == ToSet(sq) IN {r \in all : r.active \/ ~\E q \in all : q.id = r.id /\ q.active}
+AbsCmd(c) == IF "roots" \in DOMAIN c THEN [c EXCEPT !.roots = RootSetOf(@)] ELSE c
 
 MustRefuse(why) ==
   CASE why = "uri-count"    -> "must-refuse/uri-count"
@@ -57,16 +61,24 @@ ProbeJudge(pre, res) ==
   IF res.probe.t # "issued" THEN {"probe-issued"}
   ELSE LeafGeneric(pre, res.probe.cert)
 
-\* a rotation through CAManager.UpdateConfiguration (primaryUpdateRootCA): every old root stays, inactive; exactly
-\* one new, active.  When a RacingRootWrite was committed in front of the manager's conditional write (res.raced)
-\* the manager must either report an error and leave roots and configuration alone, or retry and rotate.
-\* Either way the root the manager signs with is the store's active root afterwards.
-RotateJudge(pre, res, post) ==
-  (IF res.t = "ok" THEN
+\* a rotation through CAManager.UpdateConfiguration (primaryUpdateRootCA).
+\*  - to a fresh root (res.target = ""): every old root stays, inactive; exactly one new root, active;
+\*  - to an operator-supplied root res.target, which may be new, may be a FORMER root still in the set (rolling a
+\*    rotation back) or the active root itself: afterwards the set is the old ids plus the target, the target
+\*    is active and everything else inactive.
+\* When a RacingRootWrite was committed in front of the manager's conditional write (res.raced) the manager must
+\* either report an error and leave roots and configuration alone, or retry and rotate.  Either way exactly one
+\* stored root is active afterwards and it is the root the manager signs with.
+Rotated(pre, target, post) ==
+  IF target = "" THEN
     LET old == {q.id : q \in pre.roots}  newr == {r \in post.roots : r.id \notin old} IN
-    F("rotate-state", /\ Cardinality(newr) = 1 /\ \A r \in newr : r.active
-                      /\ \A q \in pre.roots : [q EXCEPT !.active = FALSE] \in post.roots
-                      /\ Cardinality(post.roots) = Cardinality(pre.roots) + 1)
+      /\ Cardinality(newr) = 1 /\ \A r \in newr : r.active
+      /\ \A q \in pre.roots : [q EXCEPT !.active = FALSE] \in post.roots
+      /\ Cardinality(post.roots) = Cardinality(pre.roots) + 1
+  ELSE post.roots = {[id |-> q.id, active |-> FALSE] : q \in {x \in pre.roots : x.id # target}} \cup {[id |-> target, active |-> TRUE]}
+
+RotateJudge(pre, res, post) ==
+  (IF res.t = "ok" THEN F("rotate-state", Rotated(pre, res.target, post))
    ELSE F("failed-rotate-keeps-roots", SameRootsAndConfig(pre, post) /\ post.signer = pre.signer))
   \cup F("rotate-unraced-succeeds", res.raced \/ res.t = "ok")
   \cup F("signer-is-active", post.signer = post.active)
